@@ -165,8 +165,13 @@ pub fn recreate_tree_for_block<D: PredictionDecoder>(
 /// the effective encoding size of the length codes
 fn calc_tc_lengths_without_trailing_zeros(bit_lengths: &[u8]) -> usize {
     let mut len = bit_lengths.len();
-    // remove trailing zeros
-    while len > 4 && bit_lengths[TREE_CODE_ORDER_TABLE[len - 1]] == 0 {
+    // remove trailing zeros (the vector ends at the last used code, so anything beyond
+    // it, e.g. the repeat codes 16-18 if they are not used, has length zero as well)
+    while len > 4
+        && bit_lengths
+            .get(TREE_CODE_ORDER_TABLE[len - 1])
+            .map_or(true, |&l| l == 0)
+    {
         len -= 1;
     }
 
